@@ -81,10 +81,13 @@ def run(ctx, selftest=False):
     if thorough:
         r = ctx.tlc_expect_ok(['rob'], 'MC_ROB.tla', 'MC_ROB_big.cfg', workers=vlib.NCPU, timeout=2400)
         ctx.log('MC_ROB_big: %d distinct states' % r.distinct)
+        # Cap 3, 5 requests, 2 flushes: about 12 M distinct states, 5 min on 8 workers
+        r = ctx.tlc_expect_ok(['rob'], 'MC_ROB.tla', 'MC_ROB_huge.cfg', workers=vlib.NCPU, timeout=3600)
+        ctx.log('MC_ROB_huge: %d distinct states' % r.distinct)
         ctx.cov['exhaustive'] = True
 
     # 2. spec -> code: behaviours as scenarios
-    nsim = 400 if thorough else 60
+    nsim = 3000 if thorough else 60
     behs, _ = ctx.simulate(['rob'], 'ROBScen.tla', 'ROBScen.cfg', num=nsim, depth=60)
     scen = []
     for i, b in enumerate(behs):
@@ -101,9 +104,9 @@ def run(ctx, selftest=False):
     common.validate_and_triage(ctx, TSPEC, t1, {'cmd': 'c15', 'scenarios': scen})
 
     # 3. code -> spec: seeded adversarial environments
-    nrand = 600 if thorough else 60
+    nrand = 6000 if thorough else 60
     t2 = os.path.join(ctx.scratch, 'trace_rand.ndjson')
-    args = ['-random', nrand, '-reqs', 40 if thorough else 25, '-seed', ctx.seed, '-out', t2]
+    args = ['-random', nrand, '-reqs', 60 if thorough else 25, '-seed', ctx.seed, '-out', t2]
     p, stats2 = common.run_driver(ctx, drv, args)
     if stats2 is None:
         raise vlib.Infra('driver failed: ' + p.stdout[-2000:])
